@@ -315,6 +315,57 @@ def containers(case, ctx):
 
 
 # ---------------------------------------------------------------------------
+c1_case = st.fixed_dictionaries({"cls": st.sampled_from(CLASSES), "k": st.integers(1, 1 << 40).map(h), "v": gen.z256(), "d": gen.scalar_d(),
+                                 "n": st.sampled_from([1, 16, 32, 33, 100, 255]), "forge": st.sampled_from(["infinity", "reduced"])})
+
+
+@P.sub("c1point", c1_case, quick=6000, thorough=120000)
+def c1point(case, ctx):
+    """the ephemeral point C1 of an SM2 ciphertext is an imported point too: the same coordinate classes inside ciphertexts whose C2/C3
+    are consistent with what an unvalidating decryptor would compute (infinity with coordinates 0, or the reduced point)"""
+    l = lib(ctx.variant)
+    cls = case["cls"]
+    x, y = _point_for(cls, u(case["k"]), u(case["v"]))
+    d = u(case["d"])
+    n = case["n"]
+    pt = hashlib.shake_128(b"c12" + bytes([n]) + M.i2b(x)).digest(n)
+    ok = _valid(x, y)
+    forge = case["forge"]
+    red = (x % M.P, y % M.P)
+    if ok:
+        ct = M.encrypt_to_c1(d, (x, y), pt)
+        lab = "valid"
+    elif forge == "reduced" and M.on_curve(red) and red != (0, 0):
+        ct = M.encrypt_to_c1(d, red, pt)
+        lab = "reduced-consistent"
+    else:
+        z = bytes(32)
+        t = M.kdf(z + z, n)
+        ct = (M.sm3(z + pt + z), bytes(a ^ b for a, b in zip(pt, t))) if any(t) else None
+        lab = "infinity-consistent"
+    ctx.case(nontrivial=True, classes=[cls, lab], ident=case, sample=case)
+    if ct is None:
+        ctx.note("kdf-all-zero"); return
+    c3, c2 = ct
+    key = key_in(d, M.pub_of(d))
+    out = Buf(255, fill=0xA5); ol = ctypes.c_size_t(0)
+    st_ = Buf(sizeof("SM2_CIPHERTEXT"), fill=0)
+    st_.write(M.i2b(x) + M.i2b(y) + c3 + bytes([len(c2)]) + c2)
+    r1 = l.sm2_do_decrypt(key, st_, out, ctypes.byref(ol))
+    got1 = out.raw(ol.value) if r1 == 1 else None
+    der = D.enc_ct(x, y, c3, c2)
+    out2 = Buf(255, fill=0xA5); ol2 = ctypes.c_size_t(0)
+    r2 = l.sm2_decrypt(key, Buf.of(der), len(der), out2, ctypes.byref(ol2))
+    got2 = out2.raw(ol2.value) if r2 == 1 else None
+    for name, r, got in (("sm2_do_decrypt", r1, got1), ("sm2_decrypt", r2, got2)):
+        if ok:
+            ctx.check(r == 1 and got == pt, "%s rejects or alters a ciphertext with the valid C1 (%x,%x): ret=%d" % (name, x, y, r), "c1/%s/rejects-valid" % name)
+        else:
+            ctx.check(r != 1, "%s accepts a ciphertext whose C1 is the invalid pair (%x,%x) [%s, C2/C3 %s] and returns %s" %
+                      (name, x, y, cls, lab, got.hex() if got is not None else None), "c1/%s/accepts-invalid/%s" % (name, lab))
+
+
+# ---------------------------------------------------------------------------
 SCALARS = ["0", "1", "2", "n-3", "n-2", "n-1", "n", "n+1", "max", "random", "random"]
 priv_case = st.fixed_dictionaries({"scls": st.sampled_from(SCALARS), "v": gen.z256(), "pub": st.sampled_from(["match", "match", "other", "neg", "zero", "offcurve"]),
                                    "cont": st.sampled_from(["set_private_key", "ec_der", "pkcs8_der", "ec_pem", "pkcs8_pem"])})
